@@ -18,14 +18,21 @@ func (server *RunningJob) AwaitStop() {
 func SpawnJob(start func(), shutdown func()) RunningJob {
 	stop := make(chan struct{})
 	closed := make(chan struct{})
+	startDone := make(chan struct{})
 	go func() {
 		<-stop
 		vh("job.wake", stop)
 		shutdown()
+		// start may still be running (e.g. between binding its listener and
+		// noticing the shutdown); only report the job closed once it has returned
+		<-startDone
 		vh("job.closing", stop)
 		close(closed)
 	}()
-	go start()
+	go func() {
+		defer close(startDone)
+		start()
+	}()
 	return RunningJob{stop: stop, closed: closed}
 }
 
